@@ -353,6 +353,9 @@ func c10Faults(n, workers, fault int, stall bool) {
 	if void && style == 1 {
 		rt.Assume(false)
 	}
+	if rt.Tier() == 0 && stall && (void || style == 1) {
+		rt.Assume(false) // quick: the stalling mapper only with the summing, value-returning reducer
+	}
 	w := c10NewWorld(n, workers, 1)
 	w.stall, w.release = stall, make(chan struct{})
 	res := &c10Result{}
